@@ -168,6 +168,8 @@ class Harness:
                          sig=None, nontrivial=False, kind="harness-exception")
             r.setdefault("goal", None); r.setdefault("sig", None); r.setdefault("kind", "case")
             r.setdefault("nontrivial", True); r.setdefault("oracle_ok", True); r.setdefault("oracle_msg", "")
+            # numpy booleans would be written as the strings "True"/"False" by json (default=str): coerce here
+            r["oracle_ok"] = bool(r["oracle_ok"]); r["nontrivial"] = bool(r["nontrivial"]); r["oracle_msg"] = str(r["oracle_msg"])
             key = hashlib.sha1(json.dumps(inp, sort_keys=True, default=str).encode()).hexdigest()
             if key not in seen:
                 seen.add(key)
